@@ -37,6 +37,7 @@ inductive Atom where
   | str (s : String)
   | none                      -- Python `None` (sent as int 0)
   | tt | ff                   -- Python `True` / `False` (sent as int 1 / 0)
+  | msym (audio : Bool) (i : Int)   -- the string `bus.as_map()`: 'a<i>' / 'c<i>'
 deriving Repr, DecidableEq
 
 /-- a completion message supplied by the caller (an OSC message in list form, possibly with its
@@ -152,8 +153,6 @@ def Status.raises : Status → Bool
 
 /-! ### argument conversion (`_graphparam.py`, node parameter interface) -/
 
-def msymStr (b : BusObj) (i : Int) : String := (if b.audio then "a" else "c") ++ toString i
-
 /-- `_as_control_input()` of a non-sequence value; `none` = the harness refuses the call (`skip`). -/
 def atomArg (c : Core) : Val → Option Arg
   | .int i => some (ai i)
@@ -165,7 +164,7 @@ def atomArg (c : Core) : Val → Option Arg
   | .bus h => do let b ← c.buses[h]?; let i ← b.index; pure (ai i)
   | .buf h => do let b ← c.bufs[h]?; let i ← b.bufnum; pure (ai i)
   | .node h => do let n ← c.nodes[h]?; pure (ai n.id)
-  | .msym h => do let b ← c.buses[h]?; let i ← b.index; pure (as (msymStr b i))
+  | .msym h => do let b ← c.buses[h]?; let i ← b.index; pure (.atom (.msym b.audio i))
   | .list _ => none
   | .dict _ => none
 
@@ -184,7 +183,7 @@ def embed (c : Core) : Val → Option (List Arg)
   | .bus h => do let b ← c.buses[h]?; let i ← b.index; pure [ai i]
   | .buf h => do let b ← c.bufs[h]?; let i ← b.bufnum; pure [ai i]
   | .node h => do let n ← c.nodes[h]?; pure [ai n.id]
-  | .msym h => do let b ← c.buses[h]?; let i ← b.index; pure [as (msymStr b i)]
+  | .msym h => do let b ← c.buses[h]?; let i ← b.index; pure [.atom (.msym b.audio i)]
 def embedL (c : Core) : List Val → Option (List Arg)
   | [] => some []
   | v :: vs => do let a ← embed c v; let b ← embedL c vs; pure (a ++ b)
